@@ -407,8 +407,9 @@ def semHandle (st : DState) (ws : List String) : Option String :=
       | some p => some s!"unsupported {p}"
       | none =>
         if !Sem.wfMs c then some "notwf" else
-        let maxLen := match rest with | [m] => m.toNat?.getD 4 | _ => 4
-        match Sem.genContainer c seed maxLen with
+        let maxLen := match rest with | m :: _ => m.toNat?.getD 4 | _ => 4
+        let sample := match rest with | [_, k] => k.toNat?.getD 1000000 | _ => 1000000
+        match Sem.genContainer c seed maxLen sample with
         | none => some "genfail"
         | some vs => match Sem.encode c vs with
           | none => some "encfail"
